@@ -15,7 +15,7 @@ CHECKS = {
     "C05": ("reference call-structure comparison incl. call-graph.dot read back",
             "exploration over layouts with 0-6 disjoint subroutines (nested, shared, recursive, dead call sites)",
             "trusts vt/ref/cfg.py; programs whose subroutine bodies overlap are skipped (property excludes them)", "5/C05"),
-    "C06": ("concrete-execution soundness monitor on group_sizes/group_indices (+ abstract-walk exactness oracle)",
+    "C06": ("concrete-execution soundness monitor on group_sizes/group_indices + abstract-walk exactness oracle (exact_valid <= reported <= exact_ci)",
             "exploration: every accepting execution over all 136 (size, index) pairs must be admitted by every visited block",
             "trusts vt/ref/avm.py; line-based mapping of executed instructions to blocks", "5/C06"),
     "C07": ("concrete-execution soundness monitor on transaction_types",
@@ -63,6 +63,9 @@ CHECKS = {
     "C13": ("concrete group-semantics oracle over generated YAML configurations vs. GroupTransactionOutput; degenerate configurations vs. single-contract verdicts",
             "exploration over configurations of 1-3 transactions (absolute indices, offsets of both signs, types) x concrete groups",
             "trusts vt/ref/avm.py; generated contracts avoid the constructs of the known findings; the precision direction is checked for one-transaction configurations only", "5/C13"),
+    "C03": ("abstract walk oracle (direct checks exact, all other conditions free, matched returns) vs. detector reports",
+            "exploration over direct-check programs x nine detectors; confusion matrix oracle x tealer in the evidence",
+            "trusts vt/ref/walks.py (symbolic per-block condition reconstruction, explicit-state search over (pc, call stack)); Fee judged on representatives", "5/C03"),
 }
 
 
